@@ -228,4 +228,63 @@ example :
     (goodKey_of_scalar _ rfl (by decide)) rfl (by decide)
     ⟨goodKey_of_scalar _ rfl (by decide), by decide, by decide, by decide⟩
 
+/-- **C13 for a job, at the level of the whole file**: an unknown key inserted anywhere into any job -/
+theorem job_unknown_in_document (cfg : Cfg)
+    (tW tJ tK : String) (lW cW lJ cJ lK cK : Nat)
+    (preW postW preJ postJ pre post : List (Node × Node)) (kJobs kJob kn vn : Node)
+    (hJobs : GoodKey kJobs) (hJobsV : kJobs.value = "jobs") (hJobsFirst : ∀ q ∈ preW, keyId cfg true q.1 ≠ "jobs")
+    (hJobFirst : ∀ q ∈ preJ, keyId cfg false q.1 ≠ keyId cfg false kJob)
+    (hF : Foreign cfg jobKeys pre post kn) :
+    let doc (job : Node) : Node :=
+      docNode (mapNode tW lW cW (preW ++ (kJobs, mapNode tJ lJ cJ (preJ ++ (kJob, job) :: postJ)) :: postW))
+    (parse cfg (doc (mapNode tK lK cK (pre ++ (kn, vn) :: post)))).1 = (parse cfg (doc (mapNode tK lK cK (pre ++ post)))).1 ∧
+    (parse cfg (doc (mapNode tK lK cK (pre ++ (kn, vn) :: post)))).2.Perm
+      (unexpectedAt kn "job" jobKeys :: (parse cfg (doc (mapNode tK lK cK (pre ++ post)))).2) := by
+  intro doc
+  have e2 : Ext (parseJob cfg (parseString kJob false).1) (mapNode tK lK cK (pre ++ post)) (mapNode tK lK cK (pre ++ (kn, vn) :: post))
+      [unexpectedAt kn "job" jobKeys] := job_unknown cfg tK lK cK pre post kn vn _ hF
+  have e3 := parseJobs_ext cfg tJ lJ cJ preJ postJ kJob _ _ _ hJobFirst e2
+  have hdoc : ∀ root, parse cfg (docNode root) = (workflowSect cfg (docNode root)).run cfg "workflow" root false true :=
+    fun root => parse_eq_run cfg (docNode root) root [] rfl
+  have e4 := parse_jobs_ext cfg (docNode (mapNode tW lW cW [])) tW lW cW preW postW kJobs _ _ _ hJobs hJobsV hJobsFirst e3
+  have hsame : ∀ r1 r2 root, (workflowSect cfg (docNode r1)).run cfg "workflow" root false true =
+      (workflowSect cfg (docNode r2)).run cfg "workflow" root false true := fun _ _ _ => rfl
+  simp only [doc, hdoc]
+  rw [hsame _ (mapNode tW lW cW []), hsame _ (mapNode tW lW cW [])]
+  exact e4
+
+/-- **a repeated key in a step, at the level of the whole file**: exactly one `key-duplicated` diagnostic more, at the
+repetition; the whole AST unchanged -/
+theorem step_duplicate_in_document (cfg : Cfg)
+    (tW tJ tK tS tP : String) (lW cW lJ cJ lK cK lS cS lP cP : Nat)
+    (preW postW preJ postJ preK postK : List (Node × Node)) (a b : List Node) (pre post : List (Node × Node))
+    (kJobs kJob kSteps kn vn : Node)
+    (hJobs : GoodKey kJobs) (hJobsV : kJobs.value = "jobs") (hJobsFirst : ∀ q ∈ preW, keyId cfg true q.1 ≠ "jobs")
+    (hJobFirst : ∀ q ∈ preJ, keyId cfg false q.1 ≠ keyId cfg false kJob)
+    (hSteps : GoodKey kSteps) (hStepsV : kSteps.value = "steps") (hStepsFirst : ∀ q ∈ preK, keyId cfg true q.1 ≠ "steps")
+    (hR : Repeated cfg true pre kn) :
+    let doc (step : Node) : Node :=
+      docNode (mapNode tW lW cW (preW ++ (kJobs, mapNode tJ lJ cJ (preJ ++ (kJob,
+        mapNode tK lK cK (preK ++ (kSteps, seqNode tS lS cS (a ++ step :: b)) :: postK)) :: postJ)) :: postW))
+    ∃ pos, firstPos cfg true (keyId cfg true kn) pre = some pos ∧
+    (parse cfg (doc (mapNode tP lP cP (pre ++ (kn, vn) :: post)))).1 = (parse cfg (doc (mapNode tP lP cP (pre ++ post)))).1 ∧
+    (parse cfg (doc (mapNode tP lP cP (pre ++ (kn, vn) :: post)))).2.Perm
+      (dupAt kn "element of \"steps\" section" pos true :: (parse cfg (doc (mapNode tP lP cP (pre ++ post)))).2) := by
+  intro doc
+  obtain ⟨pos, hp, hins⟩ := step_duplicate cfg tP lP cP pre post kn vn hR
+  refine ⟨pos, hp, ?_⟩
+  have e0 : Ext (parseStep cfg) (mapNode tP lP cP (pre ++ post)) (mapNode tP lP cP (pre ++ (kn, vn) :: post))
+      [dupAt kn "element of \"steps\" section" pos true] := hins
+  have e1 := parseSteps_ext cfg tS lS cS a b _ _ _ e0
+  have e2 := parseJob_steps_ext cfg (parseString kJob false).1 tK lK cK preK postK kSteps _ _ _ hSteps hStepsV hStepsFirst e1
+  have e3 := parseJobs_ext cfg tJ lJ cJ preJ postJ kJob _ _ _ hJobFirst e2
+  have hdoc : ∀ root, parse cfg (docNode root) = (workflowSect cfg (docNode root)).run cfg "workflow" root false true :=
+    fun root => parse_eq_run cfg (docNode root) root [] rfl
+  have e4 := parse_jobs_ext cfg (docNode (mapNode tW lW cW [])) tW lW cW preW postW kJobs _ _ _ hJobs hJobsV hJobsFirst e3
+  have hsame : ∀ r1 r2 root, (workflowSect cfg (docNode r1)).run cfg "workflow" root false true =
+      (workflowSect cfg (docNode r2)).run cfg "workflow" root false true := fun _ _ _ => rfl
+  simp only [doc, hdoc]
+  rw [hsame _ (mapNode tW lW cW []), hsame _ (mapNode tW lW cW [])]
+  exact e4
+
 end AL.C13D
